@@ -109,6 +109,18 @@ fn main() {
         });
         return;
     }
+    if args[1] == "devfilter" {
+        use compx::*;
+        let shm = shm::Shm::new(16, 1 << 16);
+        for l in 1990..2060 {
+            let c = TableCase { keys: vec![2, 4, 5, 6], patterns: vec![0, 0, 2, 0], block_size: 1, variant: 0, big_values: false, sweep_len: Some(l) };
+            let es = table_entries(&c);
+            table_case(&c, &shm, true, 0);
+            println!("L={} first val len {} violations so far {}", l, es[0].3.len(), shm.get(shm::C_VIOLATIONS));
+        }
+        for (t, d) in shm.records() { println!("{} {}", t as char, String::from_utf8_lossy(&d).chars().take(300).collect::<String>()); }
+        return;
+    }
     if args[1] == "devseek" {
         use world::*;
         let s = sched::Sched::new(sched::Mode::Fixed);
@@ -138,6 +150,33 @@ fn main() {
                 std::process::exit(2);
             }
         }
+    }
+    if args[1] == "--replay" {
+        if args.len() < 3 {
+            usage();
+        }
+        let text = match std::fs::read_to_string(&args[2]) {
+            Ok(t) => t,
+            Err(e) => {
+                println!("MACHINERY-ERROR: cannot read {}: {}", args[2], e);
+                std::process::exit(2);
+            }
+        };
+        let v: serde_json::Value = match serde_json::from_str(&text) {
+            Ok(v) => v,
+            Err(e) => {
+                println!("MACHINERY-ERROR: {} is not a replay file: {}", args[2], e);
+                std::process::exit(2);
+            }
+        };
+        let prop = v["property"].as_str().unwrap_or("").to_string();
+        let tier = v["tier"].as_str().unwrap_or("quick").to_string();
+        report::set_replay(&args[2], v);
+        let r = std::panic::catch_unwind(move || dispatch(&prop, &tier));
+        if let Err(p) = r {
+            println!("MACHINERY-ERROR: checker panicked: {}", parking_lot::verif_rt::panic_message(&*p));
+        }
+        std::process::exit(2);
     }
     if args.len() < 3 {
         usage();
